@@ -100,6 +100,18 @@ func c08Run(env *Env, op int, texts [3]string, daysLater int64) (res []string) {
 		} else {
 			res = append(res, "kept")
 		}
+	case 4: // a relayer's keep-alive (its record is stored as JSON)
+		if err := env.Valset.KeepValidatorAlive(env.Ctx, Vals[0], "v1.12.0"); err != nil {
+			res = append(res, "error: "+err.Error())
+		}
+		alive, err := env.Valset.IsValidatorAlive(env.Ctx, Vals[0])
+		if err != nil {
+			res = append(res, "error: "+err.Error())
+		} else if alive {
+			res = append(res, "alive")
+		} else {
+			res = append(res, "not alive")
+		}
 	case 3: // metric updates at the block boundary
 		env.Metrix.UpdateUptime(env.Ctx)
 		env.Metrix.UpdateRelayMetrics(env.Ctx)
@@ -117,7 +129,7 @@ func c08Run(env *Env, op int, texts [3]string, daysLater int64) (res []string) {
 }
 
 func VerifC08_Twin() {
-	op := sym.Choice("operation", 4)
+	op := sym.Choice("operation", 5)
 	daysLater := []int64{0, 29, 31}[sym.Choice("days-later", 3)]
 	var texts [3]string
 	if op == 2 {
@@ -140,9 +152,22 @@ func VerifC08_Twin() {
 			_, _ = env.Evm.GetValsetByID(qctx, &evmtypes.QueryGetValsetByIDRequest{ChainReferenceID: ChainA})
 			_, _ = env.Metrix.Validators(qctx, nil)
 		}
+		// node 1 may also run under another process environment (operators set TZ, locale
+		// and feature variables to taste)
+		otherEnv := node == 1 && sym.Bool("other-process-environment")
+		if otherEnv {
+			sym.Setenv("TZ", "Asia/Tokyo")
+			sym.Setenv("LANG", "ja_JP.UTF-8")
+			sym.Setenv("PALOMA_TEST_NET", "1")
+		}
 		sym.MapOrder(node == 1)
 		res[node] = c08Run(env, op, texts, daysLater)
 		sym.MapOrder(false)
+		if otherEnv {
+			sym.Unsetenv("TZ")
+			sym.Unsetenv("LANG")
+			sym.Unsetenv("PALOMA_TEST_NET")
+		}
 		ev[node] = c08Events(env.Ctx)
 		envs[node] = env
 	}
